@@ -5,6 +5,7 @@
       theorems), mode `off = false`, for held operands and declared names.
 -/
 import DDProofs.AutoCore
+import DDProofs.AutoFew
 import DDProps.C09
 open Std
 
@@ -63,15 +64,12 @@ theorem RefExact.ext_unique {m : Mgr} {ext ext' : Nat → Nat} (h : RefExact m e
     have h2 := h'.cnt k c hr
     omega
 
-theorem AutoMInv.dynInv {ext : Nat → Nat} {m : Mgr} (h : AutoMInv false ext m) : DynInv ext m :=
-  ⟨h.inv, h.order, h.counts, h.ctx, h.sched, (fun r hr => by rw [h.roots] at hr; cases hr), h.mode.2 rfl⟩
-
 /-- what the caller of a decorated operation observes (C09) is what the autoref layer needs -/
 theorem minv_of_dynPost {α : Type} {ext : Nat → Nat} {m m' : Mgr} {Doc : Tbl → α → Tbl → Prop} {r : α}
     (hm : AutoMInv false ext m) (hp : DynPostG ext Doc m r m') :
     AutoMInv false ext m' ∧ HeldExt m.tbl m'.tbl ext :=
   ⟨⟨hp.inv.inv, hp.inv.order, hp.inv.refs, hp.inv.ctx, hp.inv.sched, by rw [hp.roots]; exact hm.roots,
-    ⟨(fun h => nomatch h), fun _ => hp.inv.nvars⟩⟩,
+    fun h => nomatch h⟩,
    fun u _ hpos => hp.held u (Or.inr hpos)⟩
 
 /-- packaging: a decorated operation that C09 proves transparent in the state `a.m` for the ledger
@@ -129,10 +127,7 @@ theorem aIte_keepsAtDyn (a : AMgr) (hg hu hv h : Nat) : AKeepsAt false a h (aIte
   refine AKeepsAt.bind_read a (nodeIn_read hg) (fun g h1 => ?_) hi
   refine AKeepsAt.bind_read a (nodeIn_read hu) (fun u h2 => ?_)
   refine AKeepsAt.bind_read a (nodeIn_read hv) (fun v h3 => ?_)
-  exact wrapResult_keepsAt a (keepsAtDyn_of a hi
-    (C09_ite_transparent (hext a) a.m hi.minv.dynInv g u v
-      (heldX_of_handle a (nodeIn_handle hg a g h1)) (heldX_of_handle a (nodeIn_handle hu a u h2))
-      (heldX_of_handle a (nodeIn_handle hv a v h3)))) h
+  exact wrapResult_keepsAt a ((ite_keepsDyn g u v).at a.m) h
 
 /-- an operation with a single operand (`~`, `not`, `!`, or a refused call) never changes the manager -/
 theorem apply_unary_state (op : String) (u : Int) (m : Mgr) : (apply op u none none m).2 = m := by
@@ -188,9 +183,7 @@ theorem aApply_binary_keepsAtDyn (a : AMgr) (op : String) (c : Conn) (hc : docCo
   obtain ⟨v, rfl, hvh⟩ := optNode_some_handle hv a vo h3
   have := optNode_none_val a wo nodeIn h4
   subst this
-  exact wrapResult_keepsAt a (keepsAtDyn_of a hi
-    (C09_apply_binary_transparent (hext a) a.m hi.minv.dynInv op c hc h2 hq1 hq2 hall u v
-      (heldX_of_handle a (nodeIn_handle hu a u h1)) (heldX_of_handle a hvh))) h
+  exact wrapResult_keepsAt a ((apply_keepsDyn op u (some v) none).at a.m) h
 
 /-- `var(name)`, reordering possibly enabled: a declared name is transparent, an undeclared one
 is refused without any change -/
@@ -205,7 +198,7 @@ theorem var_keepsAtDyn (a : AMgr) (hi : AInv false a) (name : String) :
   | some j =>
     have hdecl : a.m.tbl.vars.contains name = true := by
       rw [TreeMap.contains_eq_isSome_getElem?, hd]; rfl
-    exact keepsAtDyn_of a hi (C09_var_transparent (hext a) a.m hi.minv.dynInv name hdecl)
+    exact (var_keepsDyn name).at a.m
 
 theorem aVar_keepsAtDyn (a : AMgr) (name : String) (h : Nat) : AKeepsAt false a h (aVar name h) :=
   fun hi => wrapResult_keepsAt a (var_keepsAtDyn a hi name) h hi
@@ -219,16 +212,13 @@ theorem aQuantify_keepsAtDyn (a : AMgr) (hu : Nat) (names : List String) (fa : B
   unfold aQuantify
   intro hi
   refine AKeepsAt.bind_read a (nodeIn_read hu) (fun u h1 => ?_) hi
-  exact wrapResult_keepsAt a (keepsAtDyn_of a hi
-    (C09_quantify_transparent (hext a) a.m hi.minv.dynInv u
-      (heldX_of_handle a (nodeIn_handle hu a u h1)) fa names hdecl)) h
+  exact wrapResult_keepsAt a ((quantify_keepsDyn u _ fa).at a.m) h
 
 /-- `cube(dvars)` over declared names -/
 theorem aCube_keepsAtDyn (a : AMgr) (d : List (String × Bool))
     (hdecl : ∀ p ∈ d, a.m.tbl.vars.contains p.1 = true) (h : Nat) :
     AKeepsAt false a h (aCube d h) :=
-  fun hi => wrapResult_keepsAt a (keepsAtDyn_of a hi
-    (C09_cube_transparent (hext a) a.m hi.minv.dynInv d hdecl)) h hi
+  fun hi => wrapResult_keepsAt a ((cube_keepsDyn d).at a.m) h hi
 
 /-- `f & g`, `f | g`, `f.implies(g)`, `f.equiv(g)` (any binary propositional alias) -/
 theorem fApply_binary_keepsAtDyn (a : AMgr) (op : String) (c : Conn) (hc : docConn op = some c)
@@ -260,9 +250,7 @@ theorem fApply_binary_keepsAtDyn (a : AMgr) (op : String) (c : Conn) (hc : docCo
         cases h3
         exact ⟨o, rfl, nodeSame_handle ho a1 o (by rw [hx])⟩
   obtain ⟨o, rfl, hoh⟩ := hoo
-  refine fun hi' => liftM_wrapF_keepsAt a (keepsAtDyn_of a hi
-    (C09_apply_binary_transparent (hext a) a.m hi.minv.dynInv op c hc h2 hq1 hq2 hall s o
-      (heldX_of_handle a (nodeOwn_handle hs a s h1)) (heldX_of_handle a hoh))) h hi'
+  refine fun hi' => liftM_wrapF_keepsAt a ((apply_keepsDyn op s (some o) none).at a.m) h hi'
 
 /-- `~f` (any unary alias): never changes the manager, any mode -/
 theorem fApply_unary_keeps {off : Bool} (op : String) (hs h : Nat) : AKeeps off h (fApply op hs none h) := by
@@ -280,8 +268,7 @@ binary case with both operands held (one of them by the temporary `Function`) -/
 theorem orKeepsDyn (b : AMgr) (hb : AInv false b) (j1 j2 : Nat) (u v : Int)
     (h1 : b.handles[j1]? = some u) (h2 : b.handles[j2]? = some v) :
     CoreKeepsAt false b.m (apply "or" u (some v) none) :=
-  keepsAtDyn_of b hb (C09_apply_binary_transparent (hext b) b.m hb.minv.dynInv "or" .or (by decide)
-    (by decide) (by decide) (by decide) (by decide) u v (heldX_of_handle b h1) (heldX_of_handle b h2))
+  (apply_keepsDyn "or" u (some v) none).at b.m
 
 theorem fLe_keepsDyn (hs ho : Nat) : AKeeps0 false (fLe hs ho) :=
   fLe_keeps0 (fun u => apply_unary_keeps "not" u) orKeepsDyn hs ho
@@ -309,9 +296,7 @@ theorem aLet_bools_keepsAtDyn (a : AMgr) (vals : List (String × Bool)) (hne : v
     change (Except.ok (LetArg.bools (boolKeys vals)) : Except Err LetArg) = .ok d' at hd'
     cases hd'; rfl
   subst this
-  refine fun hi' => (AKeepsAt.then_read' a (wrapResult_keepsAt a (keepsAtDyn_of a hi
-    ((C09_let_transparent (hext a) a.m hi.minv.dynInv u
-      (heldX_of_handle a (nodeIn_handle hu a u h1))).1 vals hne hdecl)) h) fun _ => ARead.pure _) hi'
+  refine fun hi' => (AKeepsAt.then_read' a (wrapResult_keepsAt a ((letOp_keepsDyn _ u).at a.m) h) fun _ => ARead.pure _) hi'
 
 theorem aLet_names_keepsAtDyn (a : AMgr) (dvars : List (String × String)) (hne : dvars ≠ [])
     (hd : ∀ p ∈ dvars, a.m.tbl.vars.contains p.2 = true) (hu h : Nat) :
@@ -332,9 +317,7 @@ theorem aLet_names_keepsAtDyn (a : AMgr) (dvars : List (String × String)) (hne 
     change (Except.ok (LetArg.names dvars) : Except Err LetArg) = .ok d' at hd'
     cases hd'; rfl
   subst this
-  refine fun hi' => (AKeepsAt.then_read' a (wrapResult_keepsAt a (keepsAtDyn_of a hi
-    ((C09_let_transparent (hext a) a.m hi.minv.dynInv u
-      (heldX_of_handle a (nodeIn_handle hu a u h1))).2.2 dvars hne hd)) h) fun _ => ARead.pure _) hi'
+  refine fun hi' => (AKeepsAt.then_read' a (wrapResult_keepsAt a ((letOp_keepsDyn _ u).at a.m) h) fun _ => ARead.pure _) hi'
 
 /-- `apply('ite', u, v, w)` -/
 theorem aApply_ite_keepsAtDyn (a : AMgr) (op : String) (hc : docConn op = some .ite)
@@ -350,10 +333,7 @@ theorem aApply_ite_keepsAtDyn (a : AMgr) (op : String) (hc : docConn op = some .
   refine AKeepsAt.bind_read a (optNode_read nodeIn_read _) (fun wo h4 => ?_)
   obtain ⟨v, rfl, hvh⟩ := optNode_some_handle hv a vo h3
   obtain ⟨w, rfl, hwh⟩ := optNode_some_handle hw a wo h4
-  exact wrapResult_keepsAt a (keepsAtDyn_of a hi
-    (C09_apply_ite_transparent (hext a) a.m hi.minv.dynInv op hc hall u v w
-      (heldX_of_handle a (nodeIn_handle hu a u h1)) (heldX_of_handle a hvh)
-      (heldX_of_handle a hwh))) h
+  exact wrapResult_keepsAt a ((apply_keepsDyn op u (some v) (some w)).at a.m) h
 
 /-- `BDD.copy(u, other)` into a target `a` in which reordering may be enabled (fix F4b: the copy
 runs inside the target's decorator) -/
@@ -363,8 +343,7 @@ theorem aCopyTo_keepsAtDyn (a src : AMgr) {offS : Bool} (hsrc : AInv offS src) (
   intro hi
   refine aCopyTo_keepsAt a src hu h (fun u hu' => ?_) hi
   have hmem : src.m.tbl.Mem u := hsrc.hmem hu u (nodeIn_handle hu src u hu')
-  exact keepsAtDyn_of a hi (C09_copy_bdd_transparent (hext a) src.m.tbl hsrc.inv.wf.toWF hsrc.order
-    a.m hi.minv.dynInv u hmem (hpre u hu'))
+  exact (copyBdd_keepsDyn src.m.tbl u).at a.m
 
 /-! ### `apply` with a quantifier alias, `let` with `Function` values, `declare` — reordering
 possibly enabled -/
@@ -410,9 +389,7 @@ theorem aApply_quant_keepsAtDyn (a : AMgr) (op : String) (c : Conn) (hc : docCon
   subst this
   have hmu : a.m.tbl.Mem u := hi.hmem hu u (nodeIn_handle hu a u h1)
   obtain ⟨names, hsupp, hdecl⟩ := support_declared a.m hi.inv hi.order u hmu
-  exact wrapResult_keepsAt a (keepsAtDyn_of a hi
-    (C09_apply_quant_transparent (hext a) a.m hi.minv.dynInv op c hc hq hall u v hmu
-      (heldX_of_handle a hvh) names hsupp hdecl)) h
+  exact wrapResult_keepsAt a ((apply_keepsDyn op u (some v) none).at a.m) h
 
 /-- the values of `let` that are `Function`s of this manager -/
 theorem nodesAny_own (a : AMgr) : ∀ (d : List (String × Nat)) (l : List (String × Int)),
@@ -501,9 +478,7 @@ theorem aLet_funs_keepsAtDyn (a : AMgr) (d : List (String × Nat)) (hne : d ≠ 
     rw [hk] at this
     obtain ⟨q, hq, hq1⟩ := List.mem_map.mp this
     rw [← hq1]; exact hdecl q hq
-  refine fun hi' => (AKeepsAt.then_read' a (wrapResult_keepsAt a (keepsAtDyn_of a hi
-    ((C09_let_transparent (hext a) a.m hi.minv.dynInv u
-      (heldX_of_handle a (nodeIn_handle hu a u h1))).2.1 l hlne hldecl hheld)) h)
+  refine fun hi' => (AKeepsAt.then_read' a (wrapResult_keepsAt a ((letOp_keepsDyn _ u).at a.m) h)
     fun _ => ARead.pure _) hi'
 
 /-- sequencing of core operations, one start state -/
@@ -565,9 +540,7 @@ theorem aImage_image_keepsAtDyn (a : AMgr) (ht hs : Nat) (l : List (String × St
   refine AKeepsAt.bind_read a (nodeSame_read hs) (fun s h2 => ?_)
   have ht' := nodeOwn_handle ht a t h1
   have hs' := nodeSame_handle hs a s h2
-  exact wrapResult_keepsAt a (keepsAtDyn_of a hi
-    (C09_image_transparent (hext a) a.m hi.minv.dynInv t s (heldX_of_handle a ht')
-      (heldX_of_handle a hs') fa l qs (hpre t s ht' hs'))) h
+  exact wrapResult_keepsAt a ((image_keepsDyn t s _ _ fa).at a.m) h
 
 /-- `preimage(trans, target, rename, qvars, forall)` of autoref with dynamic reordering possibly
 enabled: the frame (invariant, counts, every live `Function` keeps its node and its meaning) -/
@@ -584,8 +557,6 @@ theorem aImage_preimage_keepsAtDyn (a : AMgr) (ht hs : Nat) (l : List (String ×
   refine AKeepsAt.bind_read a (nodeSame_read hs) (fun s h2 => ?_)
   have ht' := nodeOwn_handle ht a t h1
   have hs' := nodeSame_handle hs a s h2
-  exact wrapResult_keepsAt a (keepsAtDyn_of a hi
-    (C09_preimage_transparent (hext a) a.m hi.minv.dynInv t s (heldX_of_handle a ht')
-      (heldX_of_handle a hs') fa l qs (hpre s hs'))) h
+  exact wrapResult_keepsAt a ((preimage_keepsDyn t s _ _ fa).at a.m) h
 
 end DD
